@@ -192,7 +192,7 @@ func (d Date) Sub(input Quantity) (Date, error) {
 		if err != nil {
 			return Date{}, err
 		}
-		return Date{d.date.AddDate(0, -months, 0), d.l}, nil
+		return Date{addMonth(d.date, -months), d.l}, nil // (clamped: the value of a month-precision element may stand on any day of its month)
 	}
 
 	// subtract appropriate position of date, for non-partial dates.
